@@ -23,10 +23,11 @@ from vt import runworld as RW
 from vt.util import cb, ci, pick, untraced
 
 LAST = None
-DNAMES = ['tests', 'pkg', 'ftests', '1bad', 'good_2', '.git', 'node_modules', 'my-dir', '__pycache__', 'CVS']
+DNAMES = ['tests', 'pkg', 'ftests', '1bad', 'good_2', '.git', 'node_modules', 'my-dir', '__pycache__', 'CVS', 'lambda', 'async']      # the last two: identifiers that are keywords
 FNAMES = ['tests.py', 'test_a.py', 'a.py', 'ftests.py', 'tests.txt', 'tests.pyc', 'test_b.pyc', 'testsfoo.py', 'checks.py', 'test_a.pyc', 'tests.pyo', '__init__.pyc']
 PATHSETS = [['/r'], ['/r', '/r'], ['/r', '/r/D1'], ['/r/D1', '/r'], ['/r/D1/D2', '/r', '/r/D1']]
-PATTERNS = [[], ['--tests-pattern', '^(tests|checks)$'], ['--tests-pattern', '^f?tests$', '--test-file-pattern', '^(test|a)']]
+PATTERNS = [[], ['--tests-pattern', '^(tests|checks)$'], ['--tests-pattern', '^f?tests$', '--test-file-pattern', '^(test|a)'],
+            ['--ignore_dir', 'good_2'], ['--ignore_dir', 'pkg', '--ignore_dir', 'zlast']]      # --ignore_dir adds to the default ignore list
 IDENT = re.compile(r'[_a-z]\w*$', re.I)
 IGNORE = {'.git', 'node_modules', '__pycache__'}
 DEFAULT_IGNORE_DIR = {'.git', '.svn', 'CVS', '{arch}', '.arch-ids', '_darcs'}       # documented defaults of --ignore_dir
@@ -113,9 +114,11 @@ def files(*a):
     finally:
         F.os = saved
     with untraced():
-        tp = re.compile(desc[10][1]) if desc[10] else re.compile('^tests$')
-        fp = re.compile(desc[10][3]) if len(desc[10]) > 2 else re.compile('^test')
-        exp = expected(tree, roots, desc[9], tp, fp, DEFAULT_IGNORE_DIR)
+        pa = list(desc[10])
+        tp = re.compile(pa[pa.index('--tests-pattern') + 1]) if '--tests-pattern' in pa else re.compile('^tests$')
+        fp = re.compile(pa[pa.index('--test-file-pattern') + 1]) if '--test-file-pattern' in pa else re.compile('^test')
+        extra_ignore = {pa[i + 1] for i, x in enumerate(pa) if x == '--ignore_dir'}
+        exp = expected(tree, roots, desc[9], tp, fp, DEFAULT_IGNORE_DIR | extra_ignore)
         why = None
         if fos.calls:
             why = 'discovery modified the file system: %r' % (fos.calls[:2],)
@@ -217,7 +220,7 @@ _ND, _NF = len(DNAMES), len(FNAMES)
 _B = ('0 <= link <= 2 and 0 <= d1 < %d and 0 <= d2 <= 1 and 0 <= f_root < %d and 0 <= f1a < %d and 0 <= f1b < %d and 0 <= f2 < %d and 0 <= pat < %d and 0 <= paths < %d'
       % (_ND, _NF, _NF, _NF, _NF, len(PATTERNS), len(PATHSETS)))
 _Q = (_B + ' and (link == 0 or (paths == 0 and pat == 0 and not usec and f1a <= 1)) and f_root == 2 and d2 == 0 and f2 == 1 and f1b <= 3 and init2 and (paths == 0 or f1a <= 3) and (paths <= 3) '
-      'and (pat == 0 or (d1 <= 2 and f1a <= 3 and paths == 0)) and (not usec or (d1 <= 1 and f1a >= 4 and paths == 0 and pat == 0))')
+      'and (pat == 0 or (d1 <= 2 and f1a <= 3 and paths == 0) or (pat >= 3 and paths == 0 and f1a <= 1 and (d1 == 1 or d1 == 4 or d1 == 9))) and (not usec or (d1 <= 1 and f1a >= 4 and paths == 0 and pat == 0))')
 _T = _B + ' and (f_root == 2 or f_root == 5) and f2 <= 1 and f1b <= 5 and init2 and d2 == 0 and ((pat != 0) + (paths != 0) + usec + (link != 0) <= 1)'
 _PS = [('d1', 'int'), ('f1a', 'int'), ('f1b', 'int'), ('init1', 'bool'), ('rev', 'bool'), ('mp', 'int'), ('pkg', 'bool'), ('failkind', 'int'), ('failwhich', 'int')]
 _CS = ', '.join(n for n, _ in _PS)
@@ -256,7 +259,7 @@ SPEC = {
          'reach': 'files_reach', 'reach_bounds': {'quick': _B + ' and d1 == 0 and paths == 0 and pat == 0 and not usec and init1 and init2',
                                                   'thorough': _B + ' and d1 == 0 and paths == 0 and pat == 0 and not usec and init1 and init2'},
          'timeout': {'quick': 300, 'thorough': 1700},
-         'fidelity': [_v(), _v(d1=2, pat=2, f1a=3, f1b=2, rev=True, paths=4), _v(usec=True, f1a=5, f1b=9, init1=False, f2=11), _v(d1=3, paths=2), _v(pat=1, f1b=8, paths=3), _v(d1=6, link=1), _v(d1=1, link=2)]},
+         'fidelity': [_v(), _v(d1=2, pat=2, f1a=3, f1b=2, rev=True, paths=4), _v(usec=True, f1a=5, f1b=9, init1=False, f2=11), _v(d1=3, paths=2), _v(pat=1, f1b=8, paths=3), _v(d1=6, link=1), _v(d1=1, link=2), _v(d1=9, pat=3), _v(d1=1, pat=4), _v(d1=10), _v(d1=11, rev=True)]},
         {'name': 'suites', 'fn': 'suites', 'params': _PS, 'call': _CS,
          'bounds': {'quick': _QS, 'thorough': _BS + ' and d1 <= 4 and f1a <= 5 and f1b <= 3'},
          'slices': {'quick': ['mp == %d and %s' % (m, p) for m in range(len(MODPAT)) for p in ('pkg', 'not pkg')],
